@@ -1015,6 +1015,7 @@ def run(tier):
             f.write(walktap.case_file(rows_out[k:k + per]))
         files.append(p)
     corr_bad = []
+    lib.coq_make(["models/DagWalkRun.vo"])   # not in the closure of the property file: build it here
     if os.path.exists(os.path.join(lib.COQ, "models", "DagWalkRun.vo")):
         res = lib.run_case_files(files)
         for i, p in enumerate(files):
